@@ -144,7 +144,8 @@ func (s testSvc[T]) Calc(buf *bytes.Buffer) T {
 		fmt.Fprintf(&b, "\tcase *msg.%s:\n\t\t*out = append(*out, %q)\n\t\tdump_%s(x, out)\n", k.Name, k.Name, k.Name)
 	}
 	b.WriteString("\tdefault:\n\t\t*out = append(*out, fmt.Sprintf(\"?%T\", v))\n\t}\n}\n\n")
-	b.WriteString("func newAny(name string) codec.BinaryCodec {\n\tswitch name {\n")
+	b.WriteString("var reuse bool\nvar lastObj = map[string]codec.BinaryCodec{}\n\nfunc newAny(name string) codec.BinaryCodec {\n\tif o, ok := lastObj[name]; ok && reuse {\n\t\treturn o\n\t}\n\to := newAny0(name)\n\tlastObj[name] = o\n\treturn o\n}\n\n")
+	b.WriteString("func newAny0(name string) codec.BinaryCodec {\n\tswitch name {\n")
 	for _, k := range p.Packets {
 		fmt.Fprintf(&b, "\tcase %q:\n\t\treturn &msg.%s{}\n", k.Name, k.Name)
 	}
@@ -171,6 +172,9 @@ func (s testSvc[T]) Calc(buf *bytes.Buffer) T {
 	switch parts[0] {
 	case "CKS":
 		setChecksums(parts[1] == "1")
+		return "R - ok"
+	case "REUSE":
+		reuse = parts[1] == "1"
 		return "R - ok"
 	case "ENC":
 		arg := ""
